@@ -884,7 +884,15 @@ type complMsg struct {
 }
 
 func completionMessage(d *driverModel) *complMsg {
-	for _, b := range d.process.Blocks {
+	// the command loop, and the driver helpers its cases are split into (the receive case handed to a method)
+	var blocks []*ssa.BasicBlock
+	for _, f := range funcFamily(d.process) {
+		if f == d.searchCompleted {
+			continue
+		}
+		blocks = append(blocks, f.Blocks...)
+	}
+	for _, b := range blocks {
 		for _, ins := range b.Instrs {
 			call, ok := ins.(ssa.CallInstruction)
 			if !ok || call.Common().StaticCallee() != d.searchCompleted {
